@@ -100,18 +100,15 @@ Lemma accepts_iff fuel :
   search_dim kn nknots fuel order naxes x <> Outside <->
   (ltb (kn 0) x = true /\ leb x (kn (nknots - 1)) = true).
 Proof.
-  assert (O0 : ord (kn 0)) by (apply Hord_kn; lia).
-  assert (Ol : ord (kn (nknots - 1))) by (apply Hord_kn; lia).
   unfold search_dim, gtb.
-  destruct (leb x (kn 0)) eqn:E0; cbn [orb].
-  - split; [congruence|]. intros [H _]. apply lt_not_le in H; auto. congruence.
-  - destruct (ltb (kn (nknots - 1)) x) eqn:E1.
-    + split; [congruence|]. intros [_ H]. apply lt_not_le in E1; auto. congruence.
-    + split; intros _.
-      * split; [apply leb_false_lt; auto | apply ltb_false_le; auto].
-      * destruct (ltb x (kn order)); [discriminate|].
-        destruct (geb x (kn naxes)); [discriminate|].
-        destruct (bsearch kn fuel x order (nknots - 2)); discriminate.
+  destruct (ltb (kn 0) x) eqn:E0; cbn [andb negb].
+  - destruct (leb x (kn (nknots - 1))) eqn:E1; cbn [negb].
+    + split; intros _; [split; reflexivity|].
+      destruct (ltb x (kn order)); [discriminate|].
+      destruct (geb x (kn naxes)); [discriminate|].
+      destruct (bsearch kn fuel x order (nknots - 2)); discriminate.
+    + split; [congruence|]. intros [_ H]. discriminate.
+  - split; [congruence|]. intros [H _]. discriminate.
 Qed.
 
 Lemma search_post fuel c :
@@ -127,8 +124,8 @@ Proof.
   assert (On : ord (kn naxes)) by (apply Hord_kn; lia).
   assert (Ol : ord (kn (nknots - 1))) by (apply Hord_kn; lia).
   unfold search_dim.
-  destruct (leb x (kn 0) || gtb x (kn (nknots - 1))) eqn:E0; [discriminate|].
-  apply orb_false_elim in E0. destruct E0 as [E0 E0']. unfold gtb in E0'.
+  destruct (negb (gtb x (kn 0) && leb x (kn (nknots - 1)))) eqn:E0; [discriminate|].
+  apply negb_false_iff in E0. apply andb_true_iff in E0. destruct E0 as [E0 E0']. unfold gtb in E0.
   destruct (ltb x (kn order)) eqn:E1.
   - intros H; inversion H; subst c.
     split; [lia|]. split; [|split].
@@ -169,7 +166,8 @@ Proof.
   assert (On : ord (kn naxes)) by (apply Hord_kn; lia).
   assert (Ol : ord (kn (nknots - 1))) by (apply Hord_kn; lia).
   unfold search_dim.
-  destruct (leb x (kn 0) || gtb x (kn (nknots - 1))) eqn:E0; [discriminate|].
+  destruct (negb (gtb x (kn 0) && leb x (kn (nknots - 1)))) eqn:E0; [discriminate|].
+  apply negb_false_iff in E0. apply andb_true_iff in E0. destruct E0 as [E0 E0']. unfold gtb in E0.
   destruct (ltb x (kn order)) eqn:E1; [discriminate|].
   unfold geb. destruct (leb (kn naxes) x) eqn:E2; [discriminate|].
   assert (Hlo : leb (kn order) x = true) by (apply ltb_false_le; auto).
@@ -219,7 +217,7 @@ Lemma search_dim_cases d x :
              in_range d x /\ center_post d x c).
 Proof.
   intros [W1 [W2 [W3 W4]]] Ox.
-  pose proof (accepts_iff ord laws (d_kn d) (d_nknots d) (Z.of_nat (d_order d)) (d_naxes d) x Ox W3 ltac:(lia) W1 (fuel_of d)) as Hacc.
+  pose proof (accepts_iff (d_kn d) (d_nknots d) (Z.of_nat (d_order d)) (d_naxes d) x (fuel_of d)) as Hacc.
   pose proof (search_terminates ord laws (d_kn d) (d_nknots d) (Z.of_nat (d_order d)) (d_naxes d) x Ox W3 W4 ltac:(lia) W1 W2 (fuel_of d)) as Hterm.
   pose proof (search_post ord laws (d_kn d) (d_nknots d) (Z.of_nat (d_order d)) (d_naxes d) x Ox W3 W4 ltac:(lia) W1 W2 (fuel_of d)) as Hpost.
   assert (Hf : (Z.to_nat (d_nknots d) <= fuel_of d)%nat) by (unfold fuel_of; lia).
